@@ -14,6 +14,7 @@ import (
 	"github.com/attestantio/dirk/services/checker"
 	memfetcher "github.com/attestantio/dirk/services/fetcher/mem"
 	standardprocess "github.com/attestantio/dirk/services/process/standard"
+	"github.com/attestantio/dirk/services/sender"
 	"github.com/herumi/bls-eth-go-binary/bls"
 	pb "github.com/wealdtech/eth2-signer-api/pb/v1"
 	distributed "github.com/wealdtech/go-eth2-wallet-distributed"
@@ -175,8 +176,9 @@ func PeerCtx(name string) context.Context {
 // RouteSender implements sender.Service by calling the recipient's receiver handler, the way the
 // gRPC sender does over the wire, with the caller's name as authenticated identity.
 type RouteSender struct {
-	c    *Cluster
-	from *Instance
+	sender.Service // nil; keeps the type compiling if the interface grows
+	c              *Cluster
+	from           *Instance
 }
 
 var errLost = errors.New("message lost")
